@@ -275,6 +275,7 @@ fn c05d_into_explicit_max_length() {
 
 /// The delta normaliser touches every entry of `added` and `removed` and
 /// nothing but their max length (fixed sizes: 2 added, 2 removed).
+// vk: unwindset=memcmp.0:17; bound=2 added + 2 removed entries
 #[kani::proof]
 #[kani::unwind(4)]
 fn c05d_updates_set_explicit_max_length() {
@@ -296,6 +297,49 @@ fn c05d_updates_set_explicit_max_length() {
     assert!(u.added[0].comment.is_none() && u.added[1].comment.is_none());
     kani::cover!(a0.max_length.is_none() && r1.max_length.is_some());
     std::mem::forget(u);
+}
+
+//------------ C05(b): "is the prefix held" ---------------------------------------
+
+/// The held-resources test `Routes::process_updates`, `Routes::filter` and
+/// the BGP analyser apply to each payload: for a CA holding exactly one
+/// (arbitrary) prefix, a payload is held iff it is of the same address family
+/// and the held prefix covers the payload's prefix bit by bit; the max length
+/// plays no role. (Finding F4: the family used to be ignored.)
+// vk: bound=held set = one arbitrary v4 prefix; payload arbitrary v4 or v6
+#[kani::proof]
+#[kani::unwind(6)]
+fn c05b_held_by_v4() {
+    let held = any_v4();
+    let set: ResourceSet = TypedPrefix::V4(held).into();
+    let p = any_payload_v4();
+    let TypedPrefix::V4(pp) = p.prefix else { unreachable!() };
+    let got = p.held_by(&set);
+    assert!(got == spec_covers32(held.addr.to_bits(), held.addr_len, pp.addr.to_bits(), pp.addr_len));
+    // no v6 payload is held by a v4-only set, whatever its bits
+    let q = any_payload_v6();
+    assert!(!q.held_by(&set));
+    kani::cover!(got && held.addr_len < pp.addr_len);
+    kani::cover!(!got && held.addr_len < pp.addr_len);
+    kani::cover!(!got && held.addr_len > pp.addr_len);
+    std::mem::forget(set);
+}
+
+// vk: bound=held set = one arbitrary v6 prefix; payload arbitrary v6 or v4
+#[kani::proof]
+#[kani::unwind(6)]
+fn c05b_held_by_v6() {
+    let held = any_v6();
+    let set: ResourceSet = TypedPrefix::V6(held).into();
+    let p = any_payload_v6();
+    let TypedPrefix::V6(pp) = p.prefix else { unreachable!() };
+    let got = p.held_by(&set);
+    assert!(got == spec_covers128(held.addr.to_bits(), held.addr_len, pp.addr.to_bits(), pp.addr_len));
+    let q = any_payload_v4();
+    assert!(!q.held_by(&set));
+    kani::cover!(got && held.addr_len < pp.addr_len);
+    kani::cover!(!got && held.addr_len < pp.addr_len);
+    std::mem::forget(set);
 }
 
 //------------ C16(b): krill's own prefix / ASN parsers -----------------------
@@ -323,47 +367,22 @@ fn check_v4_from_str(s: &str) {
     kani::cover!(r.is_err());
 }
 
+// vk: timeout=900; bound=0..=9 ASCII bytes (shortest valid prefix text is 9 bytes)
 #[kani::proof]
-#[kani::unwind(9)]
-fn c16b_ipv4prefix_from_str_7() {
-    let (buf, len) = any_ascii::<7>();
+#[kani::unwind(11)]
+fn c16b_ipv4prefix_from_str_9() {
+    let (buf, len) = any_ascii::<9>();
     let Ok(s) = std::str::from_utf8(&buf[..len]) else { return };
     check_v4_from_str(s);
 }
 
+// vk: tier=thorough; timeout=2400; bound=0..=10 ASCII bytes
 #[kani::proof]
 #[kani::unwind(12)]
 fn c16b_ipv4prefix_from_str_10() {
     let (buf, len) = any_ascii::<10>();
     let Ok(s) = std::str::from_utf8(&buf[..len]) else { return };
     check_v4_from_str(s);
-}
-
-/// The length arithmetic behind `from_str` for *every* parsed address and
-/// length (the part after the std parsers): never panics, accepts exactly the
-/// well-formed prefixes. This is the same code path as from_str with the two
-/// std parsers replaced by arbitrary results, expressed through the public
-/// parser on the canonical "a.b.c.d/len" text is out of reach (15+ bytes), so
-/// this harness drives `Ipv4Prefix::from_str` on 4 symbolic digits after a
-/// fixed "0.0.0.0/" / "255.255.255.255/" head instead.
-#[kani::proof]
-#[kani::unwind(20)]
-fn c16b_ipv4prefix_from_str_len_digits() {
-    let d: [u8; 3] = kani::any();
-    let n: usize = kani::any();
-    kani::assume(n <= 3);
-    kani::assume(d[0] < 128 && d[1] < 128 && d[2] < 128);
-    let mut buf = *b"128.0.0.0/\0\0\0";
-    buf[10] = d[0];
-    buf[11] = d[1];
-    buf[12] = d[2];
-    let Ok(s) = std::str::from_utf8(&buf[..10 + n]) else { return };
-    let r = Ipv4Prefix::from_str(s);
-    if let Ok(p) = r {
-        assert!(p.addr_len >= 1 && p.addr_len <= 32);
-    }
-    kani::cover!(r.is_ok());
-    kani::cover!(r.is_err() && n == 3);
 }
 
 #[kani::proof]
